@@ -169,11 +169,23 @@ impl<NonceSize: Unsigned, Rounds, IsX> ChaChaAny<NonceSize, Rounds, IsX> {
     }
 }
 
-impl<NonceSize, Rounds: Unsigned, IsX> ChaChaAny<NonceSize, Rounds, IsX> {
+impl<NonceSize: Unsigned, Rounds: Unsigned, IsX> ChaChaAny<NonceSize, Rounds, IsX> {
     #[inline]
     fn try_apply_keystream(&mut self, data: &mut [u8]) -> Result<(), ()> {
-        self.state
-            .try_apply_keystream::<WideEnabled>(data, Rounds::U32)
+        if NonceSize::U32 != 12 {
+            return self
+                .state
+                .try_apply_keystream::<WideEnabled>(data, Rounds::U32);
+        }
+        // The block counter is only 32 bits wide here; the refill functions increment a 64-bit
+        // counter, so keep the carry out of the last block from reaching the first nonce word.
+        let nonce0 = self.state.state.get_stream_param(0) >> 32;
+        let res = self
+            .state
+            .try_apply_keystream::<WideEnabled>(data, Rounds::U32);
+        let ctr = self.state.state.get_stream_param(0) & 0xffff_ffff;
+        self.state.state.set_stream_param(0, (nonce0 << 32) | ctr);
+        res
     }
 }
 
@@ -221,7 +233,9 @@ impl<NonceSize: Unsigned, Rounds, IsX> StreamCipherSeek for ChaChaAny<NonceSize,
     }
 }
 
-impl<NonceSize, Rounds: Unsigned, IsX> StreamCipher for ChaChaAny<NonceSize, Rounds, IsX> {
+impl<NonceSize: Unsigned, Rounds: Unsigned, IsX> StreamCipher
+    for ChaChaAny<NonceSize, Rounds, IsX>
+{
     #[inline]
     fn try_apply_keystream(&mut self, data: &mut [u8]) -> Result<(), LoopError> {
         Self::try_apply_keystream(self, data).map_err(|_| LoopError)
